@@ -723,6 +723,110 @@ func depthSweep(maxK int) *core.Family {
 	}
 }
 
+// (4) amplification sweep: small inputs (a few hundred bytes to a few kilobytes) shaped so
+// that an algorithm which is not linear or quadratic in the input does exponentially or
+// cubically more work on them: patterns with many wildcards over subjects with many partial
+// matches, wide sets of equal and of distinct members, wide records, long `has` paths,
+// ladders in the action and entity hierarchies of a schema (2^n paths). Each case runs in an
+// isolated worker; on the unchanged tree every case takes milliseconds, and a case that does
+// not return within HangAfter is re-run alone before it is reported (core stall detector).
+type widthCase struct {
+	name string
+	mk   func(n int) []byte
+}
+
+var widths = []widthCase{
+	{"policy-like-many-wildcards-near-misses", func(n int) []byte {
+		return []byte(`permit(principal,action,resource) when { "` + rep("xa", 2*n) + `" like "` + rep("*a", n) + `*b" };`)
+	}},
+	{"policy-like-many-wildcards-all-same-letter", func(n int) []byte {
+		return []byte(`permit(principal,action,resource) when { "` + rep("a", 3*n) + `" like "` + rep("a*", n) + `b" || context.b like "` + rep("*a", n) + `b*" };`)
+	}},
+	{"policy-like-context-subject", func(n int) []byte {
+		return []byte(`permit(principal,action,resource) when { context.subject like "` + rep("*a", n) + `*b" };`)
+	}},
+	{"json-policy-like-many-wildcards", func(n int) []byte {
+		pat := rep(`"Wildcard",{"Literal":"a"},`, n) + `"Wildcard",{"Literal":"b"}`
+		return []byte(`{"effect":"permit","principal":{"op":"All"},"action":{"op":"All"},"resource":{"op":"All"},"conditions":[{"kind":"when","body":{"like":{"left":{"Value":"` + rep("xa", 2*n) + `"},"pattern":[` + pat + `]}}}]}`)
+	}},
+	{"policy-wide-set-of-equal-members", func(n int) []byte {
+		return []byte(`permit(principal,action,resource) when { [` + rep(`[1,"a"],`, 8*n) + `[1,"a"]].containsAll([` + rep(`[1,"a"],`, 8*n) + `[2]]) };`)
+	}},
+	{"policy-wide-record", func(n int) []byte {
+		var sb strings.Builder
+		for i := 0; i < 8*n; i++ {
+			fmt.Fprintf(&sb, "k%d: %d, ", i, i)
+		}
+		return []byte(`permit(principal,action,resource) when { {` + sb.String() + `z: 0} == {` + sb.String() + `z: 1} };`)
+	}},
+	{"policy-long-has-path", func(n int) []byte {
+		return []byte(`permit(principal,action,resource) when { context has a` + rep(".a", 4*n) + ` };`)
+	}},
+	{"schema-text-action-ladder", func(n int) []byte {
+		var sb strings.Builder
+		sb.WriteString("entity U; action l0, r0 appliesTo { principal: U, resource: U };\n")
+		for i := 1; i < n; i++ {
+			fmt.Fprintf(&sb, "action l%d, r%d in [l%d, r%d];\n", i, i, i-1, i-1)
+		}
+		return []byte(sb.String())
+	}},
+	{"schema-text-entity-ladder", func(n int) []byte {
+		var sb strings.Builder
+		sb.WriteString("entity L0, R0;\n")
+		for i := 1; i < n; i++ {
+			fmt.Fprintf(&sb, "entity L%d, R%d in [L%d, R%d];\n", i, i, i-1, i-1)
+		}
+		fmt.Fprintf(&sb, "action a appliesTo { principal: L%d, resource: R%d };\n", n-1, n-1)
+		return []byte(sb.String())
+	}},
+	{"schema-text-common-type-chain", func(n int) []byte {
+		var sb strings.Builder
+		sb.WriteString("type T0 = Long;\n")
+		for i := 1; i < 4*n; i++ {
+			fmt.Fprintf(&sb, "type T%d = Set<T%d>;\n", i, i-1)
+		}
+		fmt.Fprintf(&sb, "entity E { a: T%d };\n", 4*n-1)
+		return []byte(sb.String())
+	}},
+}
+
+func widthSweep(tier string) *core.Family {
+	sizes := []int{4, 8, 12, 16, 20, 24, 28, 32, 40, 48, 64}
+	if tier == "thorough" {
+		sizes = append(sizes, 96, 128, 256)
+	}
+	wreq := req
+	return &core.Family{
+		Name:       "amplification-sweep",
+		HangAfter:  30 * time.Second,
+		Desc:       fmt.Sprintf("%d shapes that amplify the work of a non-polynomial algorithm (like patterns with n wildcards over subjects with 2n near misses, in text, in JSON and against a request value; wide sets of equal members; wide records; long has paths; action and entity ladders with 2^n paths; common-type chains) at n = %v, each decoded, re-encoded, resolved / authorized in an isolated worker; a case that does not return within 30 s is re-run alone and reported as a hang", len(widths), sizes),
+		N:          int64(len(widths) * len(sizes)),
+		Isolated:   true,
+		CrashClass: func(i int64) string { return widths[int(i)/len(sizes)].name },
+		Run: func(t *core.T, i int64) {
+			w := widths[int(i)/len(sizes)]
+			n := sizes[int(i)%len(sizes)]
+			src := w.mk(n)
+			t.Sample(fmt.Sprintf("%s n=%d (%d bytes)", w.name, n, len(src)))
+			if strings.Contains(w.name, "context-subject") {
+				// the subject comes from the request
+				var p cedar.Policy
+				if err := p.UnmarshalCedar(src); err != nil {
+					t.Fail("harness-amplification-doc", string(src), "parses", err.Error())
+					return
+				}
+				ps := cedar.NewPolicySet()
+				ps.Add("p", &p)
+				r := wreq
+				r.Context = types.NewRecord(types.RecordMap{"subject": types.String(rep("xa", 2*n)), "b": types.String(rep("a", 3*n))})
+				t.Protect("amplification:Authorize", string(src), func() { _, _ = cedar.Authorize(ps, ents, r) })
+			}
+			lightDecode(t, w.name, src)
+			t.Nontrivial()
+		},
+	}
+}
+
 func Check() *core.Check {
 	return &core.Check{
 		ID:        "C10",
@@ -738,10 +842,10 @@ func Check() *core.Check {
 			stails := []string{"", " }", " };"}
 			if tier == "thorough" {
 				return []*core.Family{byteFamily(), tokenFamily("policy-token-strings", policyTokens, 4, heads, tails, textPolicyEntries[:2]), tokenFamily("schema-token-strings", schemaTokens, 4, sheads, stails, schemaTextEntries),
-					jsonDeviations(2), textDeviations(), unicodeEncoders(), depthSweep(22)}
+					jsonDeviations(2), textDeviations(), unicodeEncoders(), widthSweep(tier), depthSweep(22)}
 			}
 			return []*core.Family{byteFamily(), tokenFamily("policy-token-strings", policyTokens, 3, heads, tails, textPolicyEntries[:2]), tokenFamily("schema-token-strings", schemaTokens, 3, sheads, stails, schemaTextEntries),
-				jsonDeviations(1), textDeviations(), unicodeEncoders(), depthSweep(12)}
+				jsonDeviations(1), textDeviations(), unicodeEncoders(), widthSweep(tier), depthSweep(12)}
 		},
 	}
 }
